@@ -4,8 +4,8 @@ From CMI Require Import Common.Scalar Cxx.C05_Defs Cxx.C04_Defs Cxx.C04_FluxDefs
 Definition f_riemann (pw : float -> float -> float) (cst : Z -> Z -> float) (gamma : float) :=
   let c := mk_consts float (FOps pw cst) gamma in
   fun rhoL uL PL rhoR uR PR n => hllc_flux float (FOps pw cst) c false false rhoL uL PL rhoR uR PR n (vzero float (FOps pw cst)).
-Definition f_pair_flux pw cst gamma := pair_flux float (FOps pw cst) (f_riemann pw cst gamma) gamma.
-Definition f_ghost_flux pw cst gamma := ghost_flux float (FOps pw cst) (f_riemann pw cst gamma) gamma.
+Definition f_pair_flux pw cst gamma := pair_flux_ff float (FOps pw cst) (f_riemann pw cst gamma) gamma.
+Definition f_ghost_flux pw cst gamma := ghost_flux_ff float (FOps pw cst) (f_riemann pw cst gamma) gamma.
 Definition f_bump pw cst := bump float (FOps pw cst).
 Definition f_update pw cst dblmax := update_conserved float (FOps pw cst) dblmax.
 Definition f_setprim pw cst := set_primitive float (FOps pw cst).
